@@ -28,7 +28,7 @@ git apply "$src/patch.diff" || { echo "$name: patch does not apply"; exit 1; }
 go build ./... || { echo "$name: does not build"; exit 1; }
 for i in 1 2 3; do go test -vet=off -count=1 ./... >/dev/null 2>&1 || { echo "$name: existing tests FAIL with patch"; exit 1; }; done
 if run_demo; then echo "$name: demo PASSES with patch (should fail)"; exit 1; fi
-git checkout -q -- . 
+git apply -R "$src/patch.diff" || { echo "$name: cannot unapply"; exit 1; }
 if ! run_demo; then echo "$name: demo FAILS without patch (should pass)"; exit 1; fi
 mkdir -p /verif/seeded/$name
 cp "$src/patch.diff" /verif/seeded/$name/
